@@ -9,7 +9,7 @@ harness/C02_probe.cpp vs the extracted model driven by the implementation's per-
 import os, collections
 from vlib import *
 
-PROPS = ['Props/Properties_C02.v']
+PROPS = ['Props/Properties_C02.v', 'Props/Properties_C02b.v']
 EXTRACT = '''From Coq Require Import Extraction ExtrOcamlBasic.
 Require Import Num Vec Tree MB Spatial C02_Model.
 Extraction Language OCaml.
